@@ -72,6 +72,7 @@ type Input struct {
 	SetAll      bool   `json:"set_all,omitempty"`      // hooks call SetColumn(name, v, true)
 	DelAssoc    int    `json:"del_assoc,omitempty"`    // delete: Select("Kids") = 1, Select("Pets") = 2
 	Preload     bool   `json:"preload,omitempty"`      // find / first: Preload("Kids").Preload("Pets")
+	SetAfter    bool   `json:"set_after,omitempty"`    // the marked invocations of AfterCreate/Update/Save/Delete also go through the statement: Changed + SetColumn
 }
 
 // Ev is one hook invocation as the hook itself saw it.
@@ -127,6 +128,8 @@ type env struct {
 	setKey   string
 	failKind string
 	setAll   bool
+	setAfter bool
+	updating bool
 	errs     map[int]error
 	last     error
 }
@@ -156,7 +159,11 @@ func hk(tx *gorm.DB, hook, typ string, tag int64) error {
 		}
 	}
 	ev.marker = marker
-	if E.sets[k] && (hook == "BeforeSave" || hook == "BeforeCreate" || hook == "BeforeUpdate") {
+	afterWrite := hook == "AfterCreate" || hook == "AfterUpdate" || hook == "AfterSave" || hook == "AfterDelete"
+	if E.sets[k] && E.setAfter && afterWrite && E.updating {
+		_ = tx.Statement.Changed("Val") // documented for updates (a payload next to the model)
+	}
+	if E.sets[k] && (hook == "BeforeSave" || hook == "BeforeCreate" || hook == "BeforeUpdate" || (E.setAfter && afterWrite)) {
 		if E.setAll {
 			tx.Statement.SetColumn(E.setKey, int64(1000+k), true)
 		} else {
@@ -397,6 +404,8 @@ func (w *World) Run(in Input) (o Obs) {
 	}
 	E.failKind = in.FailKind
 	E.setAll = in.SetAll
+	E.setAfter = in.SetAfter
+	E.updating = in.Op == "update" || in.Op == "updates"
 	E.setKey = "Val"
 	if in.SetKey == "db" {
 		E.setKey = "val"
